@@ -249,6 +249,33 @@ fn explicit_value(op: &str) -> Variant {
     }
 }
 
+/// The four migration paths for one DOM (C15): both writers with the database, both readers on a file /
+/// document that still carries the legacy name (written without a database), chunk / element order both ways.
+fn mig_paths(dom: &WeakDom, roots: &[Ref], nodb: &ReflectionDatabase) -> Value {
+    let mut paths = json!({});
+    paths["wbin"] = bin_trip(dom, roots);
+    paths["wxml"] = xml_trip(dom, roots, "IgnoreUnknown", "IgnoreUnknown");
+    let mut buf = Vec::new();
+    let w = std::panic::catch_unwind(std::panic::AssertUnwindSafe(|| {
+        rbx_binary::Serializer::new().reflection_database(nodb).compression_type(CompressionType::None).serialize(&mut buf, dom, roots)
+    }));
+    if let Ok(Ok(())) = w {
+        paths["rbin"] = after_of(read_bin(&buf));
+        paths["rbin_rev"] = after_of(read_bin(&reverse_prop_chunks(&buf)));
+    } else {
+        paths["rbin"] = json!({"read": "setup-failed"});
+    }
+    match write_xml(dom, roots, "NoReflection") {
+        Ok(data) => {
+            paths["rxml"] = after_of(read_xml(&data, "IgnoreUnknown"));
+            let rev = reverse_property_elements(&String::from_utf8_lossy(&data));
+            paths["rxml_rev"] = after_of(read_xml(rev.as_bytes(), "IgnoreUnknown"));
+        }
+        Err(e) => paths["rxml"] = json!({"read": "setup-failed", "detail": e}),
+    }
+    paths
+}
+
 /// C15: every Migrate descriptor of the database x every legacy value x {legacy only, legacy + explicit new}
 /// through the four paths, chunk/element order both ways on the read paths.
 pub fn run_migrations(stride: usize, out: &mut dyn Write) {
@@ -292,31 +319,41 @@ pub fn run_migrations(stride: usize, out: &mut dyn Write) {
                     let mut ev = json!({"ep": format!("mig:{}.{}:{}:{}", cname, pname, vi, with_explicit as u8), "op": "mig_case",
                                         "class": inst_class, "legacy": pname, "target": mig.new_property_name, "migop": op,
                                         "explicit": with_explicit as u8, "before": pforest(&dom, &roots), "paths": {}});
-                    // W-bin, W-xml: the writers migrate
-                    ev["paths"]["wbin"] = bin_trip(&dom, &roots);
-                    ev["paths"]["wxml"] = xml_trip(&dom, &roots, "IgnoreUnknown", "IgnoreUnknown");
-                    // R-bin: a file that still contains the legacy name (written without a database), both chunk orders
-                    let mut buf = Vec::new();
-                    let w = std::panic::catch_unwind(std::panic::AssertUnwindSafe(|| {
-                        rbx_binary::Serializer::new().reflection_database(&nodb).compression_type(CompressionType::None).serialize(&mut buf, &dom, &roots)
-                    }));
-                    if let Ok(Ok(())) = w {
-                        ev["paths"]["rbin"] = after_of(read_bin(&buf));
-                        ev["paths"]["rbin_rev"] = after_of(read_bin(&reverse_prop_chunks(&buf)));
-                    } else {
-                        ev["paths"]["rbin"] = json!({"read": "setup-failed"});
-                    }
-                    // R-xml: a document that still contains the legacy element, both element orders
-                    match write_xml(&dom, &roots, "NoReflection") {
-                        Ok(data) => {
-                            ev["paths"]["rxml"] = after_of(read_xml(&data, "IgnoreUnknown"));
-                            let rev = reverse_property_elements(&String::from_utf8_lossy(&data));
-                            ev["paths"]["rxml_rev"] = after_of(read_xml(rev.as_bytes(), "IgnoreUnknown"));
-                        }
-                        Err(e) => ev["paths"]["rxml"] = json!({"read": "setup-failed", "detail": e}),
-                    }
+                    ev["paths"] = mig_paths(&dom, &roots, &nodb);
                     serde_json::to_writer(&mut *out, &ev).unwrap();
                     out.write_all(b"\n").unwrap();
+                }
+            }
+            // siblings: two instances of the class with different legacy values and a bare third one in ONE file; each
+            // must end up with the migration of its own value (one event per focused instance, same path results)
+            // only values the writers accept on their own take part (what happens to the others is the business of
+            // the single-instance cases above)
+            let values: Vec<Variant> = legacy_values(&op, db)
+                .into_iter()
+                .filter(|v| {
+                    let mut probe = WeakDom::new(InstanceBuilder::new("DataModel"));
+                    let root = probe.root_ref();
+                    let r = probe.insert(root, InstanceBuilder::new(inst_class).with_property(pname, v.clone()));
+                    write_bin(&probe, &[r], CompressionType::None).is_ok() && write_xml(&probe, &[r], "IgnoreUnknown").is_ok()
+                })
+                .collect();
+            if values.len() >= 2 {
+                let step = (values.len() / 5).max(1);
+                for j in (0..values.len()).step_by(step) {
+                    let mut dom = WeakDom::new(InstanceBuilder::new("DataModel"));
+                    let root = dom.root_ref();
+                    let a = dom.insert(root, InstanceBuilder::new(inst_class).with_name("A").with_property(pname, values[j].clone()));
+                    let b = dom.insert(root, InstanceBuilder::new(inst_class).with_name("B").with_property(pname, values[(j + values.len() / 2 + 1) % values.len()].clone()));
+                    let c = dom.insert(root, InstanceBuilder::new(inst_class).with_name("C"));
+                    let roots = [a, b, c];
+                    let paths = mig_paths(&dom, &roots, &nodb);
+                    for focus in 1..=2 {
+                        let ev = json!({"ep": format!("mig:{}.{}:sib{}:{}", cname, pname, j, focus), "op": "mig_case", "focus": focus,
+                                        "class": inst_class, "legacy": pname, "target": mig.new_property_name, "migop": op,
+                                        "explicit": 0, "before": pforest(&dom, &roots), "paths": paths.clone()});
+                        serde_json::to_writer(&mut *out, &ev).unwrap();
+                        out.write_all(b"\n").unwrap();
+                    }
                 }
             }
         }
